@@ -5,6 +5,7 @@
 //! trusted: R6: `.iter().map(|h| V).sum()` and `.iter_mut().for_each(|h| S)` and `for h in <iter_mut>` become index loops carrying the closure body verbatim; sort_parts() is an external_body wrapper for Vec::sort (a permutation); RecipientOnionFields is a skeleton {total_mpp_amount_msat} and check_merge is external_body (keeps total_mpp_amount_msat, Ok only if both totals agree); HTLCPreviousHopData, PaymentHash opaque
 //! trusted: R15 (statement slicing): handle_claimable_htlc works under the claimable_payments mutex with events and HashMap entries; the unit extracts the `let claim_deadline = Some(match <min of part expiries> {..} - HTLC_FAIL_BACK_BUFFER)` statement verbatim (the `.iter().map(..).min()` chain rewritten by R6 into a loop) as a function of the part list; ClaimableHTLC skeleton {mpp_part}
 //! trusted: R15 (deep slice): inbound_payment::verify decrypts and authenticates the payment secret (ChaCha20/HMAC, outside the verifier); the unit extracts its two final tests (total_msat against the amount and the expiry against the highest seen block time) verbatim as a function of the decoded (min_amt_msat, expiry); decoding those two numbers from the decrypted bytes is covered by the Kani harness h_info_bytes; FinalOnionHopData skeleton
+//! trusted: R15: claim_payment_internal: the unit extracts the amount re-check (the loop over the parts and the two abort tests, conditions captured) verbatim as a function of the part list; begin_claiming_payment before it and the per-channel claims after it are dropped and not claimed; R6: `for htlc in sources.iter()` becomes an index loop
 //! assume: representation invariant of an accumulating payment: the intended sum already held is < MAX_VALUE_MSAT, every part's intended value < MAX_VALUE_MSAT, the sum of received values fits u64; timer_ticks < 255; cltv_expiry >= HTLC_FAIL_BACK_BUFFER (implied by acceptance)
 use vstd::prelude::*;
 verus! {
@@ -305,6 +306,48 @@ pub proof fn lemma_min_expiry(s: Seq<ClaimableHTLC>)
     Some(claim_deadline) => claim_deadline,
 //@with
     Some(claim_deadline) => claim_deadline + 1,
+//@end
+
+// ---- claiming: all parts or none (R15 slice of ChannelManager::claim_payment_internal) ----
+pub open spec fn parts_of(s: Seq<ClaimableHTLC>) -> Seq<MppPart> { Seq::new(s.len(), |k: int| s[k].mpp_part) }
+//@extract lightning/src/ln/channelmanager.rs :: impl ChannelManager :: fn claim_payment_internal
+//@rw R15
+    fn claim_payment_internal($params:any) { $pre:any let mut claimable_amt_msat = 0; let mut expected_amt_msat = None; let mut valid_mpp = true; let mut errs = Vec::new(); let per_peer_state = $pps; for htlc in sources.iter() { $loop:any } mem::drop(per_peer_state); if $c1:cond { $r1:any } if $c2:cond { $r2:any } $rest:any }
+//@with
+    fn claim_amount_recheck(sources: &Vec<ClaimableHTLC>) -> (bool, bool) {
+        let mut claimable_amt_msat: u64 = 0; let mut expected_amt_msat: Option<u64> = None; let mut valid_mpp = true;
+        let mut __i: usize = 0;   // R6: for htlc in sources.iter()
+        while __i < sources.len()
+            invariant __i <= sources@.len(), valid_mpp, value_sum(parts_of(sources@)) <= u64::MAX,
+                claimable_amt_msat as int == value_sum(parts_of(sources@).take(__i as int)),
+                __i == 0 ==> expected_amt_msat is None, __i > 0 ==> expected_amt_msat == sources@[0].mpp_part.total_value_received,
+                forall|a: int, b: int| 0 <= a < sources@.len() && 0 <= b < sources@.len() ==> sources@[a].mpp_part.total_value_received == sources@[b].mpp_part.total_value_received,
+            ensures __i == sources@.len(),
+            decreases sources@.len() - __i
+        {
+            proof { lemma_isum_step(parts_of(sources@), __i as int); lemma_isum_mono(parts_of(sources@), __i as int + 1); }
+            let htlc = &sources[__i];
+            __i = __i + 1;
+            $loop
+        }
+        proof { assert(parts_of(sources@).take(sources@.len() as int) =~= parts_of(sources@)); }
+        if $c1 { return (false, valid_mpp); }
+        if $c2 { return (false, valid_mpp); }
+        (true, valid_mpp)
+    }
+//@ret r
+//@requires
+    value_sum(parts_of(sources@)) <= u64::MAX,
+    // established by check_incoming_mpp_part when the set completed (proved above): every part records the same received total
+    forall|a: int, b: int| 0 <= a < sources@.len() && 0 <= b < sources@.len() ==> sources@[a].mpp_part.total_value_received == sources@[b].mpp_part.total_value_received,
+//@ensures P C04 a-payment-is-claimed-only-if-every-part-announced-in-PaymentClaimable-is-still-there-the-parts-add-up-to-the-recorded-total
+    r.0 ==> sources@.len() > 0 && sources@[0].mpp_part.total_value_received is Some
+        && value_sum(parts_of(sources@)) == sources@[0].mpp_part.total_value_received->Some_0,
+    r.1,
+//@mutant partial_set_claimed
+    claimable_amt_msat != expected_amt_msat.unwrap()
+//@with
+    claimable_amt_msat > expected_amt_msat.unwrap()
 //@end
 
 // ---- the stateless invoice check: amount and expiry tests of inbound_payment::verify (deep R15 slice) ----
